@@ -31,6 +31,9 @@ matching semantics *as a whole* are declined.  Decided (shape of the code and of
          map is created empty by the call, every binding is recorded, the duplicate test looks at every binding;
   R05.i  the inherit_slashes option (which decides the mode a route is compiled for) is, wherever a function hands it on to another
          object's bind() / bind_all(), read from a declaration, never a literal that would silence the declaring object's own default;
+         the mode BoundRoute hands to the pattern compiler is read directly off the application being bound to (option set) or off
+         the route being bound -- the parameter whose pattern is compiled -- (option not set), never off the original unbound route,
+         an attribute chain or a constant;
   R05.h  match_path: the mapping a match returns holds, for every (name, converter) of self.converters, the converter applied
          once to the text captured for the group of that name (loop, dict comprehension, dict of pairs); the groups of the
          match are read only where the match is known to be one.
@@ -71,7 +74,7 @@ from ..loader import Sym, Unfoldable
 from ..astutil import argn, names_loaded, names_stored, assigned_value
 from .common import (cfg_of, fkey, conds, has_cond, cond_texts, stmts_of, walk_body, call_tail, call_name, returns_of,
                      raises_of, raise_type, stmt_of, kwarg, protected_by, implies_absent, implies_present, handler_reraises_always)
-from ..cfg import enclosing_tries
+from ..cfg import enclosing_tries, expand_conds
 
 ROUTE = 'clastic.route'
 CANON = {'int': r'-?[0-9]+', 'float': r'-?[0-9]+(\.[0-9]+)?'}
@@ -2151,6 +2154,135 @@ def _rule_i_mode_option(rep):
     rep.floor('R05.i', 2)
 
 
+BINDER = 'BoundRoute.__init__'
+
+
+def _rule_i_mode_provenance(rep):
+    """The mode a binding compiles its pattern for is the mode declared for *this* binding.  In the constructor of a bound route
+    the mode handed to the pattern compiler is, on every path, an attribute read directly off one of the objects the binding is
+    made of: with inherit_slashes set, off the application being bound to; without it, off the route being bound -- the very
+    object whose pattern is compiled (on a re-bind that is a bound route, whose mode is the one it was actually compiled
+    with).  A value taken from anywhere else -- the original unbound route, an attribute chain, a constant -- replaces the
+    effective mode of an embedded application by a default nobody declared for this binding."""
+    repo = rep.repo
+    route = repo.mod(ROUTE)
+    bi = route.func(BINDER)
+    mod = bi.mod
+    ps = bi.params()
+    if len(ps) < 2:
+        raise AnalysisError('%s: parameters not found' % BINDER)
+    me = ps[0]
+    params = _all_params(bi)
+    calls = [c for c in walk_body(bi.node) if isinstance(c, ast.Call) and call_name(c) == '_compile_path_pattern']
+    if not calls:
+        raise AnalysisError('%s: the call that compiles the pattern was not found' % BINDER)
+
+    def attr_stores(attr):
+        out = []
+        for s in stmts_of(bi.node):
+            if isinstance(s, ast.Assign):
+                for t in s.targets:
+                    for x in (t.elts if isinstance(t, (ast.Tuple, ast.List)) else [t]):
+                        if isinstance(x, ast.Attribute) and isinstance(x.value, ast.Name) and x.value.id == me and x.attr == attr:
+                            if x is t:
+                                out.append((s, s.value))
+                            elif isinstance(s.value, (ast.Tuple, ast.List)) and len(s.value.elts) == len(t.elts):
+                                out.append((s, s.value.elts[list(t.elts).index(x)]))
+                            else:
+                                out.append((s, None))
+            elif isinstance(s, (ast.AugAssign, ast.AnnAssign)) and norm(s.target) == '%s.%s' % (me, attr):
+                out.append((s, None))
+        return out
+
+    def leaves(e, use, links=(), depth=0):
+        """[(leaf expression, links)]: locals and attributes of the new object followed to what they are bound to, every binding a
+        case of its own; links: [(binding statement, statement that uses what it binds, the competing bindings)]"""
+        if depth > 6:
+            raise AnalysisError('%s: %s cannot be followed' % (BINDER, short(e, 40)))
+        ds = None
+        if isinstance(e, ast.Name) and e.id not in params:
+            ds = [(st, v if isinstance(st, ast.Assign) else None) for st, v in _defs(bi, e.id)]
+        elif isinstance(e, ast.Attribute) and isinstance(e.value, ast.Name) and e.value.id == me:
+            ds = attr_stores(e.attr)
+        if not ds:
+            return [(e, list(links))]
+        out = []
+        for st, v in ds:
+            if v is None:
+                raise AnalysisError('%s: the value of %s cannot be followed' % (BINDER, norm(e)))
+            out.extend(leaves(v, st, list(links) + [(st, use, [s2 for s2, v2 in ds if s2 is not st])], depth + 1))
+        return out
+
+    bcfg = cfg_of(bi)
+
+    def link_conds(links):
+        """what is known where a binding runs, and on the way from it to its use past no competing binding"""
+        cs = []
+        for d, use, others in links:
+            cs.extend(conds(bi, d))
+            un = bcfg.nodes_of(use)
+            if un and d is not use:
+                raw = bcfg._conds_between(bcfg.nodes_of(d), un[0], avoid=bcfg.nodes_of_all(others))
+                cs.extend(bcfg._expand_named(expand_conds(raw), un[0]))
+        return cs
+
+    # the option: locals / parameters that hold inherit_slashes
+    optvars = set(p for p in params if p == MODE_OPTION)
+    for s in stmts_of(bi.node):
+        if isinstance(s, ast.Assign) and len(s.targets) == 1 and isinstance(s.targets[0], ast.Name):
+            v = s.value
+            if isinstance(v, ast.Call) and isinstance(v.func, ast.Attribute) and v.func.attr in ('pop', 'get') and v.args and \
+                    isinstance(v.args[0], ast.Constant) and v.args[0].value == MODE_OPTION:
+                optvars.add(s.targets[0].id)
+            elif isinstance(v, ast.Subscript) and isinstance(v.slice, ast.Constant) and v.slice.value == MODE_OPTION:
+                optvars.add(s.targets[0].id)
+    if not optvars:
+        raise AnalysisError('%s: the local holding the %s option was not found' % (BINDER, MODE_OPTION))
+
+    for c in calls:
+        a0, a1 = argn(c, 'pattern', 0), argn(c, 'mode', 1)
+        if a0 is None or a1 is None:
+            raise AnalysisError('%s: arguments of %s not found' % (BINDER, short(c, 40)))
+        cst = stmt_of(mod, c)
+        # the route being bound: the parameter whose pattern is compiled
+        owners = set()
+        for leaf, links in leaves(a0, cst):
+            for x in ast.walk(leaf):
+                if isinstance(x, ast.Attribute) and isinstance(x.value, ast.Name) and x.value.id in params and x.value.id != me and \
+                        not _stores(bi.node, x.value.id):
+                    owners.add(x.value.id)
+        if len(owners) != 1:
+            raise AnalysisError('%s: cannot tell which parameter is the route whose pattern is compiled (%s)' % (BINDER, short(a0, 40)))
+        rp = sorted(owners)[0]
+        bad, n_ok = [], 0
+        for leaf, sts in leaves(a1, cst):
+            if not isinstance(leaf, ast.Attribute):
+                if isinstance(leaf, (ast.Constant, ast.Name)):
+                    bad.append((leaf, sts, 'the mode is %s, not a mode declared by an object of this binding' % short(leaf, 30)))
+                    continue
+                raise AnalysisError('%s: where the mode %s comes from cannot be followed' % (BINDER, short(leaf, 40)))
+            for recv, rsts in leaves(leaf.value, sts[-1][0] if sts else cst, sts):
+                cs = link_conds(rsts)
+                inherit = any(implies_present(cs, o) for o in optvars)
+                own = any(implies_absent(cs, o) for o in optvars)
+                direct = isinstance(recv, ast.Name) and recv.id in params and recv.id != me and not _stores(bi.node, recv.id)
+                if not direct:
+                    bad.append((leaf, rsts, 'the mode is read off %s -- not one of the objects this binding is made of (the route being bound: %s)' % (short(recv, 40), rp)))
+                elif own and not inherit and recv.id != rp:
+                    bad.append((leaf, rsts, 'without %s the mode is read off %s, not off %s, the route whose pattern is compiled' % (MODE_OPTION, recv.id, rp)))
+                elif inherit and not own and recv.id == rp:
+                    bad.append((leaf, rsts, 'with %s the mode is read off the route %s itself, the application\'s mode is not inherited' % (MODE_OPTION, rp)))
+                elif inherit == own:
+                    bad.append((leaf, rsts, 'the mode %s.%s is chosen regardless of %s' % (recv.id, leaf.attr, MODE_OPTION)))
+                else:
+                    n_ok += 1
+        ok = not bad and n_ok >= 2
+        rep.check('R05.i', fkey(bi, 'mode compiled for is the mode of this binding'), ok,
+                  'the mode handed to the pattern compiler is the application\'s with %s, else the one of %s, the route being bound' % (MODE_OPTION, rp) if ok else
+                  (bad[0][2] if bad else 'the two sources of the mode (application / route being bound) were not both found') +
+                  ': on a re-bind the pattern is compiled for a mode that is not the effective mode of the route it came from', mod, bad[0][0] if bad else c)
+
+
 # ---- R05.f ------------------------------------------------------------------------------------------
 
 def _rule_f(rep, pats, seg):
@@ -2188,7 +2320,8 @@ def run(rep):
     rep.rule('R05.f', 'language equality of the instantiated segment template with an independent specification')
     rep.rule('R05.g', 'construction of the joined list: fresh per call, one element per literal part, binding segments glued, trailing trim per mode')
     rep.rule('R05.h', 'match_path: result[name] = converter(group name) for every converter; that mapping is returned')
-    rep.rule('R05.i', 'provenance of the inherit_slashes option on its way to BoundRoute: read from a declaration wherever it is handed on')
+    rep.rule('R05.i', 'provenance of the inherit_slashes option on its way to BoundRoute: read from a declaration wherever it is handed on; provenance of the '
+                      'mode itself: read off the application (inherit) or off the route being bound, whose pattern is compiled')
     rep.repo.mod(ROUTE)          # anchor module: its absence is an analysis error of the whole property
 
     tt = _guarded(rep, _type_tables, rep)
@@ -2214,3 +2347,4 @@ def run(rep):
         _guarded(rep, _rule_g_segments, rep, R)
     _guarded(rep, _rule_h_result, rep)
     _guarded(rep, _rule_i_mode_option, rep)
+    _guarded(rep, _rule_i_mode_provenance, rep)
